@@ -65,7 +65,7 @@ def components():
 
 
 def n_runs(tier):
-    return 160 if tier == "quick" else 2400
+    return 640 if tier == "quick" else 8000
 
 
 # ------------------------------------------------------------------ spec generation
@@ -106,7 +106,7 @@ def gen_spec(seed, index, tier):
         full_fc_out=rng.random() < 0.5,
         classical=rng.random() < 0.2,
     )
-    nsched = 4 if tier == "quick" else 8
+    nsched = 5 if tier == "quick" else 10
     scheds = [gen_schedule(rng) for _ in range(nsched)]
     variant = "sim"
     if tier == "thorough" and rng.random() < 0.3:
@@ -240,7 +240,11 @@ def drv_thm_iw(ph, w, a, st):
 
 
 def drv_qp_gv(ph, w, a, st):
-    ph.run_qpoints(a["qpoints"], with_group_velocities=True, nac_q_direction=a["nac_q_direction"])
+    # exact non-zero reciprocal lattice vectors are mapped to Gamma: with nac_q_direction the OpenMP and the serial
+    # branch of QpointsPhonon treat q=G differently (a Python-layer matter decided under C14, finding F-G), and this
+    # driver is about the kernels
+    qs = [[0.0, 0.0, 0.0] if all(abs(x - round(x)) < 1e-5 for x in q) else q for q in a["qpoints"]]
+    ph.run_qpoints(qs, with_group_velocities=True, nac_q_direction=a["nac_q_direction"])
     d = ph.get_qpoints_dict()
     f = d["frequencies"]
     return {"eig": np.sign(f) * f * f, "gv": d["group_velocities"]}
@@ -306,7 +310,7 @@ def _scale(x):
     return m if m > 0 else 1.0
 
 
-def compare(out, ref, rtol):
+def compare(out, ref, rtol, atol=1e-13):
     """[(name, maxdiff, scale)] for outputs that differ by more than rtol*scale (NaN-aware)."""
     bad = []
     bit = 0
@@ -324,7 +328,7 @@ def compare(out, ref, rtol):
             continue
         d = float(np.max(np.abs(a[fa] - b[fb]))) if fa.any() else 0.0
         s = _scale(b[fb]) if fb.any() else 1.0
-        if d > rtol * s:
+        if d > rtol * s + atol:
             bad.append((k, d, s))
     return bad, bit
 
@@ -493,7 +497,7 @@ def execute(spec):
             pyref = {"dynmat": np.array(dms)}
             E.use(variant)
         if pyref is not None:
-            bad, _ = compare(ref, pyref, 1e-8)
+            bad, _ = compare(ref, pyref, 1e-8, atol=1e-10)
             for name, d, sc in bad:
                 violations.append({"class": "reference-divergence", "site": "%s:%s" % (driver, name), "detail": dict(maxdiff=d, scale=sc, ref="in-repository Python version")})
             steps["python_reference_comparisons"] = 1
